@@ -247,3 +247,5 @@ func vUF2(name string, x, y float64) float64 {
 
 // vRealModel: the native run is IEEE arithmetic; the script file records which model produced it
 func vRealModel() bool { return vCur != nil && vCur.RealModel }
+
+func vConcreteBool(b bool) bool { return b }
